@@ -38,6 +38,8 @@ class Tag(object):
             try:
                 return v(*a, **k)
             except TypeError:
+                if rt.lenient:
+                    return Tag(None)      # classifier runs: a call that cannot bind its arguments is skipped
                 rt.dead = True
                 raise
             finally:
@@ -108,7 +110,8 @@ RUNTIME = [None]
 
 
 class Runtime(object):
-    def __init__(self, prefix, mode, max_decisions=60, max_depth=3):
+    def __init__(self, prefix, mode, max_decisions=60, max_depth=3, lenient=False):
+        self.lenient = lenient
         self.prefix = prefix
         self.pos = 0
         self.arities = []
@@ -700,7 +703,7 @@ class Program(object):
         self.filename = filename
 
     def run(self, prefix, mode):
-        rt = Runtime(prefix, mode)
+        rt = Runtime(prefix, mode, lenient=getattr(self, 'lenient', False))
         RUNTIME[0] = rt
         g = {PFX + 'T': rt.T, PFX + 'R': rt.R, PFX + 'RC': rt.RC, PFX + 'C': rt.C, PFX + 'IT': rt.IT,
              PFX + 'ITC': rt.ITC, PFX + 'W': rt.W, PFX + 'W0': rt.W0, PFX + 'U': rt.U, PFX + 'SH': rt.SH,
